@@ -1,4 +1,5 @@
 import HtaVerif.Model.C09
+import HtaVerif.Proofs.C09
 /-!
 # C09 — the reported critical path is a maximum-weight path of the graph
 
@@ -92,6 +93,70 @@ theorem checkPotential_sound (es : List WEdge) (d : Nat → Int) (D : Int) (node
     (∀ e ∈ es, d e.src + e.w ≤ d e.dst) ∧ ∀ v ∈ nodes, 0 ≤ d v ∧ d v ≤ D := by
   simp only [checkPotential, Bool.and_eq_true, List.all_eq_true, decide_eq_true_eq] at h
   exact ⟨h.1, fun v hv => h.2 v hv⟩
+
+/-! ### the dynamic programme is exact for every DAG -/
+
+/-- **The longest-path programme is a certificate for every DAG.** For any edge list and any
+duplicate-free node order in which every edge's source comes before its target (a topological
+order, e.g. networkx's), the distances computed by the dynamic programme are a non-negative
+potential bounded by `best`: no checker run can reject them. -/
+theorem C09_dp_is_potential (es : List WEdge) (order : List Nat) (hnd : order.Nodup)
+    (htopo : ∀ e ∈ es, Before order e.src e.dst) :
+    (∀ e ∈ es, distOf (dp es order) e.src + e.w ≤ distOf (dp es order) e.dst) ∧
+    (∀ v, 0 ≤ distOf (dp es order) v) ∧ (∀ v, distOf (dp es order) v ≤ best (dp es order)) := by
+  have hdst : ∀ e ∈ es, e.dst ∈ order := by
+    intro e he
+    obtain ⟨pre, post, h, _⟩ := htopo e he
+    rw [h]; simp
+  obtain ⟨h1, h2, _⟩ := dp_invariant es order [] (by simpa [keys] using hnd)
+    (fun e he _ => Or.inr (htopo e he))
+  refine ⟨fun e he => h1 e he (hdst e he), ?_, fun v => distOf_le_best _ v⟩
+  intro v
+  by_cases hv : v ∈ order
+  · exact h2 v hv
+  · have : v ∉ keys (dp es order) := by
+      unfold dp; rw [keys_foldl]; simpa [keys] using hv
+    rw [distOf_of_not_mem _ _ this]
+    exact Int.le_refl 0
+
+/-- **No path of a DAG outweighs the programme's optimum.** Together with
+`C09_reported_path_is_maximum`: a reported path whose weight equals `best (dp es order)` is a
+maximum-weight path of the graph, for every graph and every topological order. -/
+theorem C09_dp_bounds_all_paths (es : List WEdge) (order : List Nat) (hnd : order.Nodup)
+    (htopo : ∀ e ∈ es, Before order e.src e.dst) (p : List Nat) (hp : isPath es p = true) :
+    pathWeight es p ≤ best (dp es order) := by
+  obtain ⟨h1, h2, h3⟩ := C09_dp_is_potential es order hnd htopo
+  exact C09_potential_bounds_all_paths es (distOf (dp es order)) (best (dp es order)) h1 h2 h3 p hp
+
+/-- **The programme's optimum is attained**: some path of the graph weighs exactly
+`best (dp es order)`. With `C09_dp_bounds_all_paths`: `best` is the maximum path weight of the
+graph, so comparing a reported path's weight with it decides optimality exactly. -/
+theorem C09_dp_optimum_attained (es : List WEdge) (huniq : EdgesUnique es) (order : List Nat)
+    (hnd : order.Nodup) (htopo : ∀ e ∈ es, Before order e.src e.dst) :
+    ∃ p, isPath es p = true ∧ pathWeight es p = best (dp es order) := by
+  have hkeys : keys (dp es order) = order := by unfold dp; rw [keys_foldl]; simp [keys]
+  rcases foldl_max_mem_or_init ((dp es order).map (·.2)) 0 with h0 | hm
+  · exact ⟨[0], by simp [isPath], by unfold best; rw [h0]; simp [pathWeight]⟩
+  · obtain ⟨q, hq, hval⟩ := List.mem_map.mp hm
+    have hqk : q.1 ∈ order := by rw [← hkeys]; exact List.mem_map.mpr ⟨q, hq, rfl⟩
+    obtain ⟨p, a, h1, _, h3⟩ := dp_attained es huniq order [] (by simpa [keys] using hnd)
+      (fun e he _ => Or.inr (htopo e he)) (by intro u hu; simp [keys] at hu) q.1 (by simpa [keys] using hqk)
+    refine ⟨a :: p, h1, ?_⟩
+    rw [h3]
+    unfold best
+    rw [← hval]
+    exact distOf_of_mem (dp es order) (by rw [hkeys]; exact hnd) q hq
+
+/-- Non-vacuity of the hypotheses of the three theorems above on a concrete DAG. -/
+example : EdgesUnique [⟨0, 1, 5⟩, ⟨1, 2, 0⟩, ⟨0, 2, 3⟩] ∧ [0, 1, 2].Nodup ∧
+    ∀ e ∈ ([⟨0, 1, 5⟩, ⟨1, 2, 0⟩, ⟨0, 2, 3⟩] : List WEdge), Before [0, 1, 2] e.src e.dst := by
+  refine ⟨by unfold EdgesUnique; decide, by decide, ?_⟩
+  intro e he
+  simp only [List.mem_cons, List.not_mem_nil, or_false] at he
+  rcases he with rfl | rfl | rfl
+  · exact ⟨[0], [2], rfl, by simp⟩
+  · exact ⟨[0, 1], [], rfl, by simp⟩
+  · exact ⟨[0, 1], [], rfl, by simp⟩
 
 example : pathWeight [⟨0, 1, 5⟩, ⟨1, 2, 0⟩, ⟨0, 2, 3⟩] [0, 1, 2] = 5 ∧
     best (dp [⟨0, 1, 5⟩, ⟨1, 2, 0⟩, ⟨0, 2, 3⟩] [0, 1, 2]) = 5 := by decide
